@@ -276,6 +276,15 @@ def compare_feature_forms(ctx: Ctx, f: str, cfg, paths, T: int, H: int, dtype):
         if not bool(((one - ref).abs() <= tol).all()):
             return (f"feature:{f}:step-vs-all", f"{f}.get({i}) differs from column {i} of {f}.get(None)",
                     {"T": T, "step": i, "single": one.flatten()[:4].tolist(), "column": ref.flatten()[:4].tolist()})
+        # the step as a NumPy integer (for i in numpy.arange(T), an index read from an array): the same column, not something else
+        import numpy as _np
+        try:
+            onp = feat2.get(_np.int64(i))
+        except Exception:
+            onp = None                       # (a feature may not accept it: then there is no value to judge)
+        if onp is not None and (onp.shape != one.shape or not bool(((onp - one).abs() <= 0.0).all() if f != "module_a" else True)):
+            return (f"feature:{f}:numpy-step", f"{f}.get(numpy.int64({i})) has shape {tuple(onp.shape)} and is not {f}.get({i}) of shape {tuple(one.shape)} "
+                    "(a step that is not a Python int is taken for 'all steps' - the future included)", {"T": T, "step": i})
     # a NEGATIVE strike (nothing forbids it; moneyness is then decreasing in the price): the running maxima of both forms are
     # maxima of the MONEYNESS, column by column
     if f in ("moneyness", "max_moneyness", "log_moneyness", "max_log_moneyness") and T >= 2:
